@@ -131,7 +131,8 @@ def manager_state():
     from quantarhei.core.managers import Manager
     m = Manager()
     st = {}
-    for k in ("current_units", "_saved_units", "basis_stack", "basis_transformations", "current_basis_operator",
+    # (_saved_units is the scratch slot of the units contexts themselves - also of the one the harness wraps a call in)
+    for k in ("current_units", "basis_stack", "basis_transformations", "current_basis_operator",
               "basis_registered", "_in_eigenbasis_of_context", "_basis_stack", "basis_stack_ids",
               "transformation_matrices", "allowed_basis_ids"):
         if hasattr(m, k):
@@ -565,8 +566,8 @@ METHOD_L = {None: 4, "short-exp": 4, "short-exp-2": 2, "short-exp-4": 4, "short-
 def coq_call(c, p):
     L = c.get("L", METHOD_L.get(c.get("method"), 4))
     if c["op"] == "build" and c["name"].startswith("dm:"):
-        return "(mkCall %s %d %d %d)" % (coq_shape(c), p.get("refine", {}).get(c["name"][3:], 1), L, int(p["cut"]))
-    return "(mkCall %s %d %d %d)" % (coq_shape(c), max(0, c.get("nref", 0)), L, int(p["cut"]))
+        return "(mkCall %s %d %d %d 0)" % (coq_shape(c), p.get("refine", {}).get(c["name"][3:], 1), L, int(p["cut"]))
+    return "(mkCall %s %d %d %d %d)" % (coq_shape(c), max(0, c.get("nref", 0)), L, int(p["cut"]), UNITS_CODE[c.get("units")])
 
 
 RELT_KW = {"T": ("stR", {}), "TS": ("stR", {"secular_relaxation": True}), "O": ("stR", {"as_operators": True}),
@@ -634,10 +635,24 @@ def gen_history(r, k):
             else:
                 calls.append({"op": "eso", "kind": o[4:]})
         elif u < 0.85:
-            kind = r.choice(["T", "TS", "O", "TD", "TDO", "F", "TDF", "CRF", "CRF", "CRFTD", "CRFTD", "MR"])
-            calls.append({"op": "reltensor", "kind": kind})
+            kind = r.choice(["T", "TS", "O", "TD", "TDO", "F", "TDF", "CRF", "CRF", "CRF", "CRFTD", "CRFTD", "MR"])
+            c = {"op": "reltensor", "kind": kind}
+            # the call may be made inside an energy-units context (cut-offs are then given in those units)
+            if kind in ("CRF", "CRFTD"):
+                un = r.choice([None, "1/cm", "1/cm"])
+            elif kind == "MR":
+                un = None
+            else:
+                un = r.choice([None, None, "1/cm", "eV"])
+            if un:
+                c["units"] = un
+            calls.append(c)
         elif u < 0.92:
-            calls.append({"op": "ratematrix"})
+            c = {"op": "ratematrix"}
+            un = r.choice([None, "1/cm", "eV"])
+            if un:
+                c["units"] = un
+            calls.append(c)
         else:
             # repeat an earlier api call
             prev = [c for c in calls if c["op"] != "build"]
@@ -662,6 +677,14 @@ CORPUS = [
                {"op": "dmprop", "kind": "T", "nref": 3}, {"op": "dmprop", "kind": "H"}, {"op": "dmprop", "kind": "H", "nref": 4},
                {"op": "dmprop", "kind": "H"}, {"op": "dmprop", "kind": "O", "nref": 2}, {"op": "dmprop", "kind": "O"},
                {"op": "svprop"}, {"op": "dmprop", "kind": "O", "nref": 4}, {"op": "svprop"}]},
+    # tensor constructions and rate matrices requested inside energy-units contexts
+    {"calls": [{"op": "build", "name": "dm:H"}, {"op": "dmprop", "kind": "H"},
+               {"op": "reltensor", "kind": "CRF", "units": "1/cm"}, {"op": "dmprop", "kind": "H"},
+               {"op": "reltensor", "kind": "CRF", "units": "1/cm"}, {"op": "reltensor", "kind": "CRF"},
+               {"op": "reltensor", "kind": "T", "units": "eV"}, {"op": "reltensor", "kind": "T"},
+               {"op": "ratematrix", "units": "1/cm"}, {"op": "ratematrix"}, {"op": "ratematrix", "units": "1/cm"},
+               {"op": "reltensor", "kind": "F", "units": "1/cm"}, {"op": "reltensor", "kind": "F"},
+               {"op": "reltensor", "kind": "CRFTD", "units": "1/cm"}, {"op": "dmprop", "kind": "H"}]},
     # a tensor construction that raises, then propagation with the shared Hamiltonian
     {"calls": [{"op": "build", "name": "dm:H"}, {"op": "build", "name": "sv"}, {"op": "dmprop", "kind": "H"},
                {"op": "svprop"}, {"op": "reltensor", "kind": "CRFTD"}, {"op": "dmprop", "kind": "H"},
@@ -760,12 +783,47 @@ def call_sig(c):
     return c["op"]
 
 
+UNITS_CODE = {None: 0, "1/cm": 1, "eV": 2}
+
+
+def cutoff_in_units(ham, k, units):
+    """a cut-off value in `units` that the library converts to exactly 2^-k internal units (None if no
+    float within a few ulps does): the cut-off subtraction and its recovery then stay bit-exact"""
+    import numpy
+    target = 2.0 ** (-k)
+    x = float(ham.convert_2_current_u(target))
+    cands = [x]
+    lo = hi = x
+    for _ in range(16):
+        lo, hi = float(numpy.nextafter(lo, -numpy.inf)), float(numpy.nextafter(hi, numpy.inf))
+        cands += [lo, hi]
+    for v in cands:
+        if float(ham.convert_2_internal_u(v)) == target:
+            return v
+    return None
+
+
 def real_call(w, c):
+    """executes the call; tensor constructions and the rate matrix may be made inside an energy-units
+    context (the cut-off is then given in those units)"""
+    import contextlib
+    import quantarhei as qr
     cc = dict(c)
-    if c["op"] == "reltensor":
-        th, kw = RELT_KW[c["kind"]]
-        cc = {"op": "reltensor", "theory": th, "kw": kw}
-    return do_call(w, cc)
+    units = c.get("units")
+    ctx = qr.energy_units(units) if units else contextlib.nullcontext()
+    with ctx:
+        if c["op"] == "reltensor":
+            th, kw = RELT_KW[c["kind"]]
+            kw = dict(kw)
+            if kw.get("coupling_cutoff") == "CUT":
+                v = w.p.get("cut_value")
+                if v is None:
+                    v = cutoff_in_units(w.o["ham"], w.p["cut"], units) if units else 2.0 ** (-w.p["cut"])
+                if v is None:
+                    raise AssertionError("no exact cut-off value in units %s" % units)
+                kw["coupling_cutoff"] = v
+            cc = {"op": "reltensor", "theory": th, "kw": kw}
+        return do_call(w, cc)
 
 
 def run_history(case):
